@@ -8,6 +8,7 @@ EXPLANATION = ("R-ORDER in Cancel::cancel / yield_with / check_cancel; R-SIB can
                "is_canceled, true edge calls cancel(), or be in the non-cancellable table); R-SIB forwarding handshake of all "
                "five waiters and their wakers; R-WHO callers of trigger_cancel_panic; R-EXIT no poisoning by a cancel unwind; "
                "a Park that never entered the kernel is droppable (wait_kernel starts false)")
+EXPLANATION_2 = ('CancelImpl.state encoding (bit 0 / +2 per disable; is_canceled == 1, is_disabled >= 2), set_co/clear forwarding, Coroutine::cancel forwarding, Mutex cancel arm, blocker wiring')
 NOT_DECIDED = "that every stack value is dropped once (Rust unwinding, trusted); progress of the other actors over all interleavings"
 CONFIGS_QUICK = ["default"]
 CONFIGS_THOROUGH = ["default", "nosteal", "bare"]
